@@ -3990,6 +3990,12 @@ class ProfilingDataset(Dataset):
             yield x
 
     def __getitem__(self, item):
+        if not isinstance(item, (str, numbers.Integral)):
+            # Slices, lists, ... select a sub-dataset and fetch nothing. Keep
+            # this wrapper in the access path (SliceDataset(item, self)),
+            # otherwise the examples fetched through the selection, e.g. by a
+            # frozen shuffle, are not counted for this stage.
+            return super().__getitem__(item)
         start = self.timestamp()
         # Avoid context manager: https://stackoverflow.com/a/26156031/5766934
         self.hit_count[0] += 1
